@@ -449,6 +449,7 @@ REGRESSION_DEMOS = {
     "C16.collect.keeps_the_announced_epoch_while_another_guard_is_alive": dict(demo="replay/f9b_demo.rs", defect="F9b"),
     "C16.unpin.collection_keeps_the_epoch_of_a_guard_kept_by_a_destructor": dict(demo="replay/f9b_demo.rs", defect="F9b"),
     "C16.dispose.periodic_re_announcement_keeps_the_epoch_of_a_foreign_guard": dict(demo="replay/f9b_demo.rs", defect="F9b"),
+    "C02.dec.stamped_epoch_is_read_inside_a_critical_section": dict(demo="replay/f10_demo.patch", defect="F10", patch=True, lib_filter="audit_d2"),
     "C02.cascade.second_edge_stamp_judged_against_the_current_clock": dict(demo="replay/f11_demo.rs", defect="F11"),
     "auto:assertion failed: handle_count >= 1": dict(demo="replay/f12_demo.rs", defect="F12"),
     "C10.new_many_iter.never_returns_fewer_owners_than_it_hands_out": dict(demo="replay/f13_demo.rs", defect="F13"),
